@@ -60,6 +60,34 @@ fn own_key<V: Fv>(seed: [u8; 32], nmsgs: usize, vseed: u64, rep: &mut Report) {
             }
         }
     }
+    // Falcon-1024: signatures made under a wide-candidate generator stream (norm rejections and
+    // GENUINE compression failures before the attempt that succeeds): the reference must accept
+    if V::N == 1024 {
+        for w in 0..8 {
+            let strat = crate::gen::Strategy::ForceAccept { rate_pm: 150, groups: 6 * 1024 };
+            let srng = crate::gen::ScriptedRng::new(vseed, &format!("c16-wide-{}-{}", hex(&seed[..6]), w), strat, crate::signer::progress_budget(V::N));
+            let msg = format!("wide candidates {}", w).into_bytes();
+            let out = crate::signer::sign_scripted::<V>(&msg, &sk, srng, false, 0);
+            if let Ok(sig) = out.sig {
+                let sb = V::sig_to_bytes(&sig);
+                rep.evaluations += 1;
+                let pq = reframe_to_pq(&sb, V::LOGN);
+                match V::pq_verify(&pq, &msg, &pkb) {
+                    Some(true) => {
+                        rep.count("wide_candidate_sig_accepted_by_reference", 1);
+                        if out.compress_fails > 0 {
+                            rep.count("sig_after_genuine_compression_failure_accepted_by_reference", 1);
+                        }
+                    }
+                    other => rep.violation(
+                        "interop:reference-rejects-own-signature",
+                        format!("{}: PQClean result {:?} for a falcon-rust signature made after {} norm rejections and {} genuine compression failures", V::NAME, other, out.norm_rejects, out.compress_fails),
+                        json!({"variant": V::NAME, "dir": "own-sig", "seed": hex(&seed), "msg": hex(&msg), "sig": hex(&sb)}),
+                    ),
+                }
+            }
+        }
+    }
     let mut rng = rng_for(vseed, &format!("c16-own-{}", hex(&seed[..8])));
     let mut sk_importable = true;
     for m in 0..nmsgs {
